@@ -353,6 +353,22 @@ func ReadJWTKey(file string) ([]byte, error) {
 	return k, err
 }
 
+// ExecSQL runs statements straight on a store file (harness privilege: to put a file into a state an older
+// version of the application would have left behind).
+func ExecSQL(file string, stmts ...string) error {
+	db, err := sql.Open("sqlite", file+"?_pragma=busy_timeout(8000)")
+	if err != nil {
+		return err
+	}
+	defer db.Close()
+	for _, st := range stmts {
+		if _, err := db.Exec(st); err != nil {
+			return fmt.Errorf("%s: %w", st, err)
+		}
+	}
+	return nil
+}
+
 // ReadRootID reads the root id straight from a store file.
 func ReadRootID(file string) (string, error) {
 	db, err := sql.Open("sqlite", file+"?_pragma=busy_timeout(8000)")
